@@ -39,7 +39,7 @@ def extra(ctx):
 
 
 PROP = dict(
-    quick_n=250, thorough_n=3000,
+    quick_n=500, thorough_n=3000,
     trusted_base=[
         "every frozen set / frozen map / Go map is modelled as a list in an arbitrary order; an enumeration order is an arbitrary "
         "permutation-valued function on member lists (EnumOrder); theorems quantify over all of them",
